@@ -45,9 +45,6 @@ package metricsdata
 //@   fresh
 //@   ensures result1 == nil ==> (result0 != nil && cast(result0.reader, "MetricReader") == r)
 //@ end
-//@ extern func sort.Slice
-//@   modifies cast(x, "github.com/lindb/lindb/series/field.Metas")[*] when typeis(x, "github.com/lindb/lindb/series/field.Metas")
-//@ end
 //@ uf rollupTs(ref, uint16) int64
 //@ uf rollupSlot(ref, int64) uint16
 //@ func github.com/lindb/lindb/kv.Rollup.GetTimestamp
